@@ -244,6 +244,11 @@ func (ph *ptraceHandle) handle(pid int, wstatus unix.WaitStatus) (status runner.
 
 			default:
 				ph.Handler.Debug("ptrace unexpected trap cause: ", trapCause)
+				if trapCause == 0 && ph.execved {
+					// not a ptrace event but a genuine SIGTRAP (int3, kill): deliver it
+					unix.PtraceCont(pid, int(stopSig))
+					return
+				}
 			}
 			unix.PtraceCont(pid, 0)
 			verifEvent("cont", "pid", pid, "sig", 0, "why", "trap")
